@@ -54,6 +54,20 @@ def handle (op : String) (args res : List String) : Option String :=
             else none)).getD (some "unparseable")
       | _ => some "impl-output-arity"
     pure (verdictP model res prop)
+  | "cuunion", [a] => do
+    -- CellUnionFromUnion of ONE raw operand, alone and together with an empty union: the result is the normal form of the operand
+    let x ← parseCU? a
+    let u := union [x]
+    let model := [showCU u, showCU u]
+    let prop : Option String := match res with
+      | [g1, g2] => (do
+          let g1 ← parseCU? g1; let g2 ← parseCU? g2
+          pure (
+            if canon g1 != canon x || canon g2 != canon x then some "union-leaf-set"
+            else if !isNormalizedCU g1 || !isNormalizedCU g2 then some "union-not-normalized"
+            else none)).getD (some "unparseable")
+      | _ => some "impl-output-arity"
+    pure (verdictP model res prop)
   | "cucont", [a, b] => do
     -- Contains with an ARBITRARY list of cell ids as argument (duplicates, overlaps, unsorted: Contains only iterates over its
     -- argument; Intersects binary-searches in it and is therefore not asked here); the receiver is normalized.  Judge: leaf sets.
